@@ -1617,10 +1617,12 @@ class ContractionTree:
 
         # make sure all flops and size information has been populated
         tree.contract_stats()
-        # ... including the involved indices, which are derived from the child
-        # legs, and thus need to be cached *before* any leaf is reset below
+        # ... including the involved indices and legs, which are derived from
+        # the child legs and the currently sliced indices respectively, and
+        # thus need to be cached *before* anything is modified below
         for node in tree.children:
             tree.get_involved(node)
+            tree.get_legs(node)
 
         d = tree.size_dict[ind]
         if project is None:
